@@ -579,3 +579,13 @@ Example C12_witness_head_ok :
   head_ok (fun c => negb (is_gap_g (gap_set (Some (bs ".-"%bs))) c)) wit_rs = true /\
   head_ok (fun c => negb (is_gap_g (gap_set (Some (bs ".-"%bs))) c)) (C13_Rx.XCat C13_Rx.XDot (C13_Rx.XChr "G"%byte)) = false.
 Proof. exact (conj eq_refl (conj eq_refl eq_refl)). Qed.
+
+(* P2 for CUSTOM codon sets and any gap set, every mode, both strands, every rf: results on the text with the gap characters
+   removed correspond one to one, in order, to those on the gapped text under p -> non-gap characters before column p *)
+Theorem C12_custom_gap_bijection : forall g sw pw rf ns need_stop s,
+  gap_safe g = true -> words_ok g sw = true -> words_ok g pw = true ->
+  exists l, find_orfs_x g sw pw rf ns need_stop 0 s = ROk l /\
+            find_orfs_x g sw pw rf ns need_stop 0 (degap_g g s) =
+            ROk (map (fun o => mkorf (rbZ_g g s (o_start o)) (rbZ_g g s (o_stop o)) (o_plus o) (o_rf o)) l).
+Proof. exact custom_gap_bijection. Qed.
+Print Assumptions C12_custom_gap_bijection.
